@@ -136,7 +136,7 @@ def enc_vli(v, enc):
     if enc == "overlong":
         return F.vli(v, len(m) + 1) if len(m) < 9 else m[:-1] + bytes([m[-1] | 0x80]) + b"\0"
     if enc == "too_long":
-        return bytes([0x80 | (v & 0x7F)]) + b"\x80" * 8 + b"\x01"
+        return bytes([0x80 | (v & 0x7F)]) + b"\x80" * 10 + b"\x01"      # 12 bytes: the shift count itself leaves 64 bits
     return m[:-1] + bytes([m[-1] | 0x80])          # "cut": continuation bit on the last byte, nothing follows
 
 
@@ -442,6 +442,13 @@ def run(tier, replay=None):
         mcount[(dec["kind"], kind, rr["o"])] += 1
         classes.add(("mut", dec["kind"], name, kind, rr["o"]))
         res = judge_free(dec, inlen, rr, dict_bytes)
+        if res and res[1] == "alloc" and name in DICT_SITES and kind != "random":
+            # the mutation may have hit a dictionary-size field: what counts is what the MUTANT declares
+            again = B.run_jobs([dict(j, keep_input=True)], defs)[0]
+            mutated = bytes.fromhex(again.get("input", ""))
+            res = judge_free(dec, inlen, again, max(dict_bytes, declared_dict(name, mutated)))
+            ctx.add("alloc_rechecks")
+            rr = again
         if res:
             what, oc = res
             ctx.violation(f"{dec['kind']} on {name} ({kind}): {what}",
@@ -471,6 +478,50 @@ def run(tier, replay=None):
         "MT readers run on real threads; only results, panics and allocation are judged",
     ]
     ctx.finish()
+
+
+DICT_SITES = {}
+
+
+def _vli_at(b, i):
+    v, sh = 0, 0
+    while i < len(b) and sh < 63:
+        v |= (b[i] & 0x7F) << sh
+        sh += 7
+        i += 1
+        if not b[i - 1] & 0x80:
+            return v, i
+    raise ValueError
+
+
+def declared_dict(name, mutated):
+    """largest dictionary the (length-preserving) mutant of base `name` declares at the places where the base declares one"""
+    kind, sites = DICT_SITES.get(name, (None, []))
+    best = 0
+    for off in sites:
+        try:
+            if kind == "lzma":
+                best = max(best, struct.unpack("<I", mutated[1:5])[0])
+            elif kind == "lzip":
+                n, fr = mutated[off + 5] & 0x1F, mutated[off + 5] >> 5
+                if 12 <= n <= 29:
+                    best = max(best, (1 << n) - (1 << n >> 4) * fr)
+            elif kind == "xz":
+                flags = mutated[off + 1]
+                i = off + 2
+                if flags & 0x40:
+                    _, i = _vli_at(mutated, i)
+                if flags & 0x80:
+                    _, i = _vli_at(mutated, i)
+                for _ in range((flags & 3) + 1):
+                    fid, i = _vli_at(mutated, i)
+                    ps, i = _vli_at(mutated, i)
+                    if fid == 0x21 and ps == 1 and mutated[i] <= 40:
+                        best = max(best, F.prop_dict(mutated[i]))
+                    i += ps
+        except (ValueError, IndexError, struct.error):
+            pass
+    return best
 
 
 def site_of(msg):
@@ -524,6 +575,12 @@ def mutation_jobs(rnd, total):
     bases.append(("bcj_riscv", x1, {"kind": "bcj", "arch": "riscv", "start_pos": 4094}, 0, [], []))
     bases.append(("delta", m1, {"kind": "delta", "distance": 7}, 0, [], []))
     bases.append(("bcj2", x1, {"kind": "bcj2", "bcj2_size": 6000}, 0, [], []))
+    global DICT_SITES
+    DICT_SITES = {"xz_2blocks": ("xz", [a for (k, a, b_, _) in F.layout(xr) if k == "BH"]),
+                  "xz_delta_x86": ("xz", [a for (k, a, b_, _) in F.layout(xr2) if k == "BH"]),
+                  "lzip_2": ("lzip", [a for (k, a, b_, _) in F.layout(lz) if k == "LHDR"]),
+                  "lzip_2_mt": ("lzip", [a for (k, a, b_, _) in F.layout(lz) if k == "LHDR"]),
+                  "lzma_alone": ("lzma", [0])}
     defs = [B.base_def("m_" + n, d) for (n, d, _, _, _, _) in bases]
     defs.append(B.base_def("m_bcj2_call", struct.pack(">I", 0x1234) * 300))
     defs.append(B.base_def("m_bcj2_jump", struct.pack(">I", 0x99) * 300))
